@@ -30,17 +30,17 @@ MEMQ = {"tlc2.tool.queue.IStateQueue": "MemStateQueue"}
 INV = ["MCTypeOK", "C19_NilIffOwnReply", "C19_DistinctIds", "C19_NoLeakModuloKF", "NoPanic", "C19_OnlyOwn"]
 
 
-def mc_cfg(nprocs, maxrep, leak=True, inv=INV, export_every=0, idspace=65536, sendfail=True, replyids=None, view="View", first=1):
+def mc_cfg(nprocs, maxrep, leak=True, inv=INV, export_every=0, idspace=65536, sendfail=True, replyids=None, view="View", first=1, sessions=1):
     procs = ", ".join("p%d" % i for i in range(1, nprocs + 1))
     rids = replyids or ", ".join(str(i) for i in range(1, nprocs + 2))
     inv = list(inv)
     if export_every:
         inv = ["Export"] + inv
     return ("SPECIFICATION MCSpec\nCONSTANTS\n  Procs = {%s}\n  NoProc = noproc\n  IdSpace = %d\n  FirstId = %d\n  LeakOnSendError = %s\n"
-            "  MaxReplies = %d\n  ReplyIds = {%s}\n  ExportEvery = %d\n  AllowSendFail = %s\n"
+            "  MaxReplies = %d\n  ReplyIds = {%s}\n  ExportEvery = %d\n  AllowSendFail = %s\n  Sessions = {%s}\n"
             "INVARIANTS %s\nVIEW %s\nSYMMETRY Sym\nCHECK_DEADLOCK FALSE\n" %
             (procs, idspace, first, "TRUE" if leak else "FALSE", maxrep, rids, export_every or 1,
-             "TRUE" if sendfail else "FALSE", " ".join(inv), view))
+             "TRUE" if sendfail else "FALSE", ", ".join('"s%d"' % i for i in range(1, sessions + 1)), " ".join(inv), view))
 
 
 def tlc_mc(ctx, name, cfg, timeout=900, workers=4):
@@ -56,13 +56,13 @@ def model_runs(ctx):
     #     all invariants including C19_NoLeak, export of one history per distinct terminal state
     n, mr = (2, 3) if quick else (3, 4)
     inv = INV + ["C19_NoLeak"]
-    r = tlc_mc(ctx, "mc_code", mc_cfg(n, mr, leak=False, inv=inv, export_every=1 if quick else 8), timeout=1500)
+    r = tlc_mc(ctx, "mc_code", mc_cfg(n, mr, leak=False, inv=inv, export_every=2 if quick else 8, sessions=2 if quick else 1), timeout=1500)
     if not r.ok:
         raise vlib.InfraError("PingMC (code) model-level failure: violated=%s error=%s\n%s" % (r.violated, r.error, r.out[-3000:]))
     cov["mc_code_%dprocs_%dmsgs" % (n, mr)] = r.summary()
     hists = [h for h in r.json if isinstance(h, list) and h]
     if not quick:
-        r2 = tlc_mc(ctx, "mc_code2", mc_cfg(2, 4, leak=False, inv=inv, export_every=1), timeout=900)
+        r2 = tlc_mc(ctx, "mc_code2", mc_cfg(2, 4, leak=False, inv=inv, export_every=4, sessions=2), timeout=1500)
         if not r2.ok:
             raise vlib.InfraError("PingMC (code, 2 procs 4 msgs) model-level failure: %s %s" % (r2.violated, r2.error))
         cov["mc_code_2procs_4msgs"] = r2.summary()
@@ -114,6 +114,8 @@ def to_script(hist, rng):
         if j > i + 1:
             blocked.add(p)
     burst = 1 if rng.random() < 0.5 else 0
+    timed = {e["p"] for e in hist if e["a"] == "timeout"}
+    answered = {e["p"] for e in hist if e["a"] == "ret" and e.get("res") == "nil"} - timed - fails
     out = []
     inline = {}
     skip = set()
@@ -131,9 +133,14 @@ def to_script(hist, rng):
         if a == "start":
             out.append({"a": "start", "p": e["p"], "fam": e["fam"], "burst": burst,
                         "fail": "blockfail" if e["p"] in blocked else rng.choice(["addr", "write"]) if e["p"] in fails else "",
-                        "inline": inline.get(e["p"], "") if e["p"] not in fails else ""})
+                        "inline": inline.get(e["p"], "") if e["p"] not in fails else "", "sess": e.get("sess", "s1"),
+                        # the timeout argument is a dimension of its own: a ping that is answered may as well be called with one
+                        # of the arguments that mean "default" (0, negative, above 10 s)
+                        "toarg": rng.choice(["zero", "neg", "big"]) if (e["p"] in answered and rng.random() < 0.3) else ""})
         elif a == "reply":
             out.append({"a": "reply", "tgt": e["tgt"], "off": e["off"], "kind": e["kind"]})
+        elif a == "close":
+            out.append({"a": "close", "sess": e["sess"]})
         elif a == "sendfail" and e["p"] in blocked:
             out.append({"a": "release", "p": e["p"]})
         elif a == "timeout":
@@ -170,6 +177,56 @@ def blockfail_script(rng):
             out += [{"a": "reply", "tgt": p, "off": 0, "kind": own_kind(f)}, {"a": "ret", "p": p}]
         else:
             out.append({"a": "timeout", "p": p})
+    return out
+
+
+def session_script(rng):
+    """Two sessions of one process share the waiter table: Session.Close of one of them (the other one, or the pinging one)
+    while pings are pending, then the matching replies."""
+    n = rng.randint(2, 4)
+    ps = ["p%d" % i for i in range(1, n + 1)]
+    fam = {p: rng.choice(["v4", "v6"]) for p in ps}
+    sess = {p: rng.choice(["s1", "s2"]) for p in ps}
+    out = [{"a": "start", "p": p, "fam": fam[p], "fail": "", "burst": 0, "inline": "", "sess": sess[p]} for p in ps]
+    victim = rng.choice(["s1", "s2"])
+    pos = rng.randint(0, n - 1)
+    order = list(ps)
+    rng.shuffle(order)
+    for i, p in enumerate(order):
+        if i == pos:
+            out.append({"a": "close", "sess": victim})
+            if rng.random() < 0.3:
+                out.append({"a": "reply", "tgt": "noproc", "off": rng.randint(0, 3), "kind": rng.choice(KINDS)})
+        if rng.random() < 0.85:
+            out += [{"a": "reply", "tgt": p, "off": 0, "kind": own_kind(fam[p])}, {"a": "ret", "p": p}]
+        else:
+            out.append({"a": "timeout", "p": p})
+    return out
+
+
+def timeout_arg_script(rng):
+    """The timeout argument as a dimension: 0, negative and > 10 s mean the default of 2 s.  Such a ping is pending while other
+    pings register, are answered, time out; then its own reply arrives (well inside its 2 s)."""
+    n = rng.randint(2, 4)
+    ps = ["p%d" % i for i in range(1, n + 1)]
+    fam = {p: rng.choice(["v4", "v6"]) for p in ps}
+    odd = {ps[0]: rng.choice(["zero", "neg", "big"])}
+    if n > 2 and rng.random() < 0.5:
+        odd[ps[2]] = rng.choice(["zero", "neg", "big"])
+    out = []
+    for p in ps:
+        out.append({"a": "start", "p": p, "fam": fam[p], "fail": "", "burst": 0, "inline": "", "toarg": odd.get(p, "")})
+        if rng.random() < 0.3:
+            out.append({"a": "reply", "tgt": "noproc", "off": rng.randint(0, 3), "kind": rng.choice(KINDS)})
+    rest = [p for p in ps if p not in odd]
+    rng.shuffle(rest)
+    for p in rest:          # the ordinary pings first: answered or timed out while the odd ones wait
+        if rng.random() < 0.7:
+            out += [{"a": "reply", "tgt": p, "off": 0, "kind": own_kind(fam[p])}, {"a": "ret", "p": p}]
+        else:
+            out.append({"a": "timeout", "p": p})
+    for p in odd:
+        out += [{"a": "reply", "tgt": p, "off": 0, "kind": own_kind(fam[p])}, {"a": "ret", "p": p}]
     return out
 
 
@@ -464,6 +521,8 @@ def run(ctx):
     scripts += [blockfail_script(rng) for _ in range(12 if ctx.quick else 120)]
     scripts += [wrap_script(rng, 65534 - rng.randint(0, 2)) for _ in range(6 if ctx.quick else 40)]
     scripts += [slow_script(rng) for _ in range(8 if ctx.quick else 40)]
+    scripts += [session_script(rng) for _ in range(16 if ctx.quick else 150)]
+    scripts += [timeout_arg_script(rng) for _ in range(16 if ctx.quick else 150)]
     scripts = [s for s in scripts if s]
     tp, st = drive_parallel(ctx, binary, scripts, 8 if ctx.quick else 12, "ping")
     lines = vlib.read_ndjson(tp)
